@@ -212,7 +212,14 @@ static void do_bn_read_str(void) {
 	ev_begin("bn_read_str"); bhdr();
 	vh_bytes("in", in, len); vh_int("radix", radix);
 	MARK();
-	CALL(err, bn_read_str(C, (const char *)in, len, (uint_t)radix));
+	{
+		/* the bytes that FOLLOW the len given ones are digits of every radix: a reader that
+		 * looks at str[len] (the length is the limit, not a terminator) changes the value */
+		static char padded[1 << 16];
+		size_t n = len < sizeof(padded) - 8 ? len : sizeof(padded) - 8;
+		memcpy(padded, in, n); memcpy(padded + n, "1111111", 8);
+		CALL(err, bn_read_str(C, padded, n, (uint_t)radix));
+	}
 	vh_bn("c", C);
 	if (!err) { VH_TRY(rerr, sz = (long)bn_size_str(C, (uint_t)radix)); }
 	if (rerr || sz < 0) sz = 0;
